@@ -2999,7 +2999,7 @@ class Composite(ArmiObject):
         self._backupCache = (self.cached, self._backupCache)
         self.cached = {}  # don't .clear(), using reference above!
         self.p.backUp()
-        if self.spatialGrid:
+        if self.spatialGrid is not None:
             self.spatialGrid.backUp()
 
     def restoreBackup(self, paramsToApply):
@@ -3013,7 +3013,7 @@ class Composite(ArmiObject):
         """
         self.p.restoreBackup(paramsToApply)
         self.cached, self._backupCache = self._backupCache
-        if self.spatialGrid:
+        if self.spatialGrid is not None:
             self.spatialGrid.restoreBackup()
 
     def getLumpedFissionProductsIfNecessary(self, nuclides=None):
